@@ -7,6 +7,7 @@ import (
 
 	"github.com/advancedclimatesystems/gonnx/internal/zzverif"
 	"github.com/advancedclimatesystems/gonnx/onnx"
+	"github.com/advancedclimatesystems/gonnx/ops"
 	"gorgonia.org/tensor"
 )
 
@@ -137,6 +138,17 @@ func H_C13(v *zzverif.T) {
 			dims[k] = v.IntIn(fmt.Sprintf("sup%d_%d", i, k), 0, 6) // 0: an empty axis
 		}
 		t := v.ShapeTensor(names[i], dims)
+		if i == 0 && v.Has("view") && v.CInt("view") == 1 && sup[i] == 2 {
+			// a non-contiguous window on a larger tensor: shape (4,2) cut out of (4,3); the signature is about
+			// the shape, not about how the elements are stored
+			base := zzverif.NewTensor(make([]float32, 12), []int{4, 3})
+			w, serr := base.Slice(nil, ops.NewSlicer(1, 3))
+			if serr != nil {
+				panic(serr)
+			}
+			t = w
+			dims[0], dims[1] = 4, 2
+		}
 		supplied[i] = t
 		in[names[i]] = t
 		if isInit[i] == 1 {
